@@ -166,6 +166,11 @@ def instrumented(world, conv, steps, fail_at):
     wrapped_names = []
 
     def wrap(name, label, first_only=False, cond=None):
+        if not hasattr(conv, name):
+            # a private method that this code does not have (renamed / inlined): the step is not observed under its own label; the
+            # generic file-operation points below take over as interruption points, every clause is still judged on every recorded state
+            UNBOUND.add(f"NP2Converter.{name}")
+            return
         orig = getattr(conv, name)
         wrapped_names.append(name)
         seen = {"n": 0}
@@ -243,6 +248,31 @@ def instrumented(world, conv, steps, fail_at):
                 point("unlink_orig")
         return o_unlink(self, *a, **k)
 
+    o_wmd = spikeglx.write_meta_data
+    generic = bool(UNBOUND)
+
+    o_getitem = spikeglx.Reader.__getitem__
+
+    def w_getitem(self, item):
+        # a new row range read from the original = the next window of the conversion (or of the verification pass): the generic
+        # stand-in for the per-window point. Points *inside* the preparation of the shank folders are not generated: the
+        # quantifier of the property interrupts at windows, metadata writing, verification and compression.
+        if self is conv.sr:
+            rows = item[0] if isinstance(item, tuple) else item
+            key = (getattr(rows, "start", rows), getattr(rows, "stop", None), state["in_check"])
+            if key != state.get("last_rows"):
+                state["last_rows"] = key
+                point("io_read")
+        return o_getitem(self, item)
+
+    def w_wmd(md, md_file):
+        if str(md_file).startswith(str(world.root)):
+            point("io_meta")
+        return o_wmd(md, md_file)
+
+    if generic:
+        spikeglx.Reader.__getitem__ = w_getitem
+        spikeglx.write_meta_data = w_wmd
     spikeglx.Reader.close = w_close
     spikeglx.Reader.compress_file = w_comp
     pathlib.Path.unlink = w_unlink
@@ -251,6 +281,9 @@ def instrumented(world, conv, steps, fail_at):
     try:
         yield
     finally:
+        if generic:
+            spikeglx.write_meta_data = o_wmd
+            spikeglx.Reader.__getitem__ = o_getitem
         spikeglx.Reader.close = o_close
         spikeglx.Reader.compress_file = o_comp
         pathlib.Path.unlink = o_unlink
@@ -304,6 +337,7 @@ def one_process(world, o, fail_at, steps, conv=None):
 
 
 OBSERVED = set()
+UNBOUND = set()     # instrumentation points that the code under test does not have (any more)
 
 
 def sr_closed(conv):
@@ -477,9 +511,18 @@ def report(ctx, traces, verdicts):
             exc = [s.get("exc") for s in t["steps"] if s.get("exc")]
             ctx.violation("convert:" + v["prop"], f"{describe(t)}: clause {v['prop']} false at record {v['pos']}"
                           + (f" [{exc[0]}]" if exc else ""), {"kind": t["kind"], "form": t["form"], "runs": t["runs"]})
+        elif v["impl"] and UNBOUND:
+            pass        # reported once, below: the private steps are not observed under their own labels
         elif v["impl"]:
             ctx.spec_drift(f"{describe(t)}: step '{v['impl']}' (record {v['pos']}) is not the implementation-layer action of "
                            f"spec/sys/NP2Convert.tla")
+
+
+def report_unbound(ctx):
+    if UNBOUND:
+        ctx.spec_drift(f"instrumentation points {sorted(UNBOUND)} do not exist in this code: those steps of spec/sys/NP2Convert.tla are not "
+                       "bound; interruptions are injected at generic points (a new row range read from the original, metadata write, "
+                       "unlink, rename, compression chunk) instead and Recoverable / DeleteGuard / Outcome are judged on every recorded state")
 
 
 def run(ctx):
@@ -513,6 +556,7 @@ def run(ctx):
         ctx.count(1, key=(t["kind"], t["form"], json.dumps(t["runs"], sort_keys=True)))
     verdicts = validate(ctx, traces, "convert")
     report(ctx, traces, verdicts)
+    report_unbound(ctx)
     for o in sorted(OBSERVED)[:5]:
         ctx.observe(o)
     ctx.cov["histories"] = len(traces)
@@ -522,7 +566,7 @@ def run(ctx):
     for t in traces[:1] + [x for x in traces if len(x["runs"]) > 1][:2]:
         ctx.sample({"history": describe(t), "records": [[s["pt"], "".join(f"{k}:{v} " for k, v in s["fs"].items() if v != "A"), s["status"]]
                                                        for s in t["steps"]][:40]})
-    selftest(ctx, traces, {v["index"] for v in verdicts})
+    selftest(ctx, traces, {v["index"] for v in verdicts if v["prop"] or not UNBOUND})
     ctx.cov["rule"] = ("histories of 1-3 process() calls by fresh converter objects: every option vector x every interruption point "
                        "(single runs, enumerated until the run has no further step) + two/three-run histories (complete or "
                        "interrupted first run, any second run); distinct = distinct (kind, original form, run list)")
